@@ -22,10 +22,10 @@ Proof.
 Qed.
 
 Theorem apply_block_is_fold pol base txs :
-  apply_block pol base txs = seq_txs pol (fold_left (fun b t => charge (fst t) b) txs base) (map snd txs).
+  apply_block pol base txs = seq_txs pol (charge_all txs base) (map snd txs).
 Proof.
   unfold apply_block.
-  pose proof (run_txs_is_fold pol (map snd txs) (fold_left (fun b t => charge (fst t) b) txs base) false) as H.
+  pose proof (run_txs_is_fold pol (map snd txs) (charge_all txs base) false) as H.
   destruct (run_txs pol true _ (map snd txs)) as [st os]. exact H.
 Qed.
 
@@ -61,7 +61,42 @@ Lemma no_reset_position_matters :
   lookup (1, 0) (lst (fst st)) = None /\ lookup (1, 0) (lst (fst st')) = Some 5.
 Proof. vm_compute. repeat split; reflexivity. Qed.
 
+(* per-transaction fee accounting: every transaction's fee is burnt from ITS sender, before anything runs and
+   whatever the transactions then do; nothing else is touched *)
+Lemma charge_other a fee b k : k <> (GASNS, a) -> lookup k (lst (charge a fee b)) = lookup k (lst b).
+Proof.
+  intros H. unfold charge. simpl. destruct (key_eqb k (GASNS, a)) eqn:E; auto.
+  exfalso. apply H. unfold key_eqb in E. apply andb_true_iff in E. destruct E as [E1 E2].
+  apply N.eqb_eq in E1, E2. destruct k; simpl in *; subst; reflexivity.
+Qed.
+Lemma charge_sender a fee b : lookup (GASNS, a) (lst (charge a fee b)) = Some (dflt (lookup (GASNS, a) (lst b)) - fee).
+Proof. unfold charge. simpl. unfold key_eqb. simpl. rewrite !N.eqb_refl. reflexivity. Qed.
+
+Fixpoint fees_of (a : N) (txs : list (N * N * prog)) : N :=
+  match txs with
+  | [] => 0
+  | (s, f, _) :: r => (if s =? a then f else 0) + fees_of a r
+  end.
+
+Theorem charge_all_sender txs : forall a base,
+  fees_of a txs <= dflt (lookup (GASNS, a) (lst base)) ->
+  dflt (lookup (GASNS, a) (lst (charge_all txs base))) = dflt (lookup (GASNS, a) (lst base)) - fees_of a txs.
+Proof.
+  unfold charge_all. induction txs as [|[[s f] p] r IH]; intros a base H; simpl in *.
+  - lia.
+  - destruct (s =? a) eqn:E.
+    + apply N.eqb_eq in E. subst s. rewrite IH; rewrite charge_sender; simpl; lia.
+    + apply N.eqb_neq in E. rewrite IH; rewrite charge_other; try lia; congruence.
+Qed.
+
+Theorem charge_all_others txs : forall k base,
+  (forall a, k <> (GASNS, a)) -> lookup k (lst (charge_all txs base)) = lookup k (lst base).
+Proof.
+  unfold charge_all. induction txs as [|[[s f] p] r IH]; intros k base H; simpl; auto.
+  rewrite IH; auto. apply charge_other; auto.
+Qed.
+
 Lemma block_example :
-  apply_block Lazy base0 [(3, pend); (3, later)] = seq_txs Lazy (charge 3 (charge 3 base0)) [pend; later] /\
-  lookup (1, 0) (lst (fst (apply_block Lazy base0 [(3, pend); (3, later)]))) = Some 5.
+  apply_block Lazy base0 [(5, 3, pend); (6, 4, later)] = seq_txs Lazy (charge 6 4 (charge 5 3 base0)) [pend; later] /\
+  lookup (1, 0) (lst (fst (apply_block Lazy base0 [(5, 3, pend); (6, 4, later)]))) = Some 5.
 Proof. split; [apply apply_block_is_fold | vm_compute; reflexivity]. Qed.
